@@ -68,6 +68,16 @@ pub fn base_context() -> Context {
 }
 
 pub fn main() {
+    // `nbverif eval --tz <IANA name>`: the local time zone of the session (jiff reads TZ); UTC by default so
+    // that results do not depend on the machine the check runs on
+    let args: Vec<String> = std::env::args().collect();
+    let tz = args
+        .iter()
+        .position(|a| a == "--tz")
+        .and_then(|i| args.get(i + 1).cloned())
+        .unwrap_or_else(|| "UTC".to_string());
+    // SAFETY: single-threaded at this point
+    unsafe { std::env::set_var("TZ", &tz) };
     let mut base = base_context();
     let stdin = io::stdin();
     let stdout = io::stdout();
